@@ -90,6 +90,7 @@ class Rows(object):
 # ---------------------------------------------------------------------------
 
 IN_COMPONENT = ('comp', 'nested', 'deep')     # containers whose content belongs to the component under test
+ALL_COMPONENT_CONTAINERS = ('comp', 'nested', 'deep', 'comp2')
 
 
 class Attr(object):
@@ -639,21 +640,26 @@ def resolve_udt(d, type_name):
         type_name = base[0]
 
 
-def reference_xsd(d):
+def reference_xsd(d, component='comp'):
     '''
     -> (types {name: ('restriction', base) | ('enum', [values])}, classes {KL: {attr: type}})
-    for the component of diagram *d* (types: global ones and those inside the component)
+    for the component of diagram *d* (or, with component='comp2', for the second component); types: global
+    ones and those inside that component. An attribute keeps its type name also when the type lives in another
+    component (only the declaration of the type is a matter of scope).
     '''
+    inside = IN_COMPONENT if component == 'comp' else (component,)
+    in_scope = lambda where: where in inside or where not in ALL_COMPONENT_CONTAINERS
     types = dict((n, ('restriction', b)) for n, b in XS_CORE.items())
     for name, values, where in d.enums:
-        types[name] = ('enum', list(values))
+        if in_scope(where):
+            types[name] = ('enum', list(values))
     for name, base, where in d.udts:
         b = xsd_type_name(d, base)
-        if b is not None:
+        if b is not None and in_scope(where):
             types[name] = ('restriction', b)
     classes = {}
     for c in d.classes:
-        if c.where not in IN_COMPONENT:
+        if c.where not in inside:
             continue
         attrs = {}
         for a in c.attrs:
